@@ -539,6 +539,10 @@ pub struct ReplayFile {
 
 impl ReplayFile {
     pub fn direct_src(&self) -> TapeSrc {
+        if self.tape.is_empty() && self.scenario.is_null() {
+            // the run crashed or got stuck before it could report anything: all there is is (seed, run)
+            return TapeSrc::Seed { seed: self.seed, run: self.run };
+        }
         let sched: Vec<u32> = self.tape.get(self.gen_len.min(self.tape.len())..).map(|s| s.to_vec()).unwrap_or_default();
         TapeSrc::Direct { scenario: self.scenario.clone(), sched }
     }
